@@ -579,7 +579,7 @@ func initReflect(prog *ssa.Program) {
 		"Size":      newMethod(i.reflectPackage, rtypeType, "Size"),
 		"String":    newMethod(i.reflectPackage, rtypeType, "String"),
 	}
-	for _, extra := range []string{"FieldByName", "Name", "PkgPath", "Key", "Len", "Comparable", "Implements", "MethodByName"} {
+	for _, extra := range []string{"FieldByName", "Name", "PkgPath", "Key", "Len", "Comparable", "Implements", "MethodByName", "AssignableTo", "ConvertibleTo"} {
 		rtypeMethods[extra] = newMethod(i.reflectPackage, rtypeType, extra)
 	}
 	errorMethods = methodSet{
